@@ -145,14 +145,21 @@ def rule_sethash(ctx: Ctx, rels: List[str]) -> None:
                     its += [g.iter for g in node.generators]
                 elif isinstance(node, ast.Call) and isinstance(node.func, ast.Name) and node.func.id in ("list", "tuple", "enumerate") and node.args:
                     its.append(node.args[0])
+                # order-sensitive consumers: a keyed min/max/sorted breaks ties by iteration order; next(iter(s)) / s.pop() take "the first"
+                if isinstance(node, ast.Call) and isinstance(node.func, ast.Name) and node.func.id in ("min", "max", "sorted") and node.args and get_kw(node, "key") is not None:
+                    its.append(node.args[0])
+                elif isinstance(node, ast.Call) and isinstance(node.func, ast.Name) and node.func.id == "iter" and node.args:
+                    its.append(node.args[0])
+                elif isinstance(node, ast.Call) and call_attr(node) == "pop" and not node.args and isinstance(node.func.value, ast.Name) and node.func.value.id in names:
+                    its.append(node.func.value)
                 for it in its:
                     if is_set_expr(it, names, set_funcs):
                         n += 1
                         ctx.touch(m, fn)
                         ctx.fail("order.sethash", m, node,
-                                 f"{qualname(fn)} iterates the set `{short(it, 80)}` into an ordered result; its elements (edge triples "
-                                 f"/ node ids) contain strings, so the order depends on PYTHONHASHSEED, and the resulting list is "
-                                 f"indexed by a seeded random integer: a fixed solver seed does not fix the outcome",
+                                 f"{qualname(fn)} iterates the set `{short(it, 80)}` into an ordered result; its elements hash by "
+                                 f"strings (edge triples / node ids: PYTHONHASHSEED) or by object address (circuits), so the order, and "
+                                 f"with it which element a seeded index / a keyed min on a tie picks, is not fixed by the solver seed",
                                  func=qualname(fn), construct=f"{qualname(fn)}: iterates set {short(it, 80)}")
             # count order-preserving selections as discharged obligations
             for node in ast.walk(fn):
@@ -342,6 +349,31 @@ def rule_result_provenance(ctx: Ctx, rel: str, q: str, loop_required: bool) -> N
         return
     r = res[-1]
     if loop_required:
+        # the result must be current when solve() returns: refreshed unconditionally after the last hall-of-fame update
+        # (update_hof also replaces hof[0] on a score tie with a shorter circuit, so "only on strict improvement" goes stale)
+        chain_, cur = [], None
+        def _path(node, acc):
+            for ch in ast.iter_child_nodes(node):
+                if ch is r:
+                    return acc + [node]
+                got = _path(ch, acc + [node])
+                if got:
+                    return got
+            return None
+        chain_ = _path(fn, []) or []
+        guard = next((a for a in chain_ if isinstance(a, (ast.If, ast.Try, ast.While, ast.IfExp))), None)
+        upd = [c for c in calls_in(fn) if call_attr(c) == "update_hof"]
+        late = [c for c in upd if (c.lineno, c.col_offset) > (r.lineno, r.col_offset) and not any(isinstance(a, (ast.For, ast.While)) for a in chain_)]
+        in_loop = next((a for a in chain_ if isinstance(a, ast.For)), None)
+        if in_loop is not None:
+            late = [c for c in upd if any(c is x for x in ast.walk(in_loop)) and (c.lineno, c.col_offset) > (r.lineno, r.col_offset)]
+        if guard is not None:
+            ctx.fail("effect.result-provenance", m, r, f"the reported result is refreshed only under `{short(guard.test) if hasattr(guard, 'test') else 'try'}`: "
+                     "update_hof can replace hof[0] (score tie, shorter circuit) without that condition holding, leaving a stale result",
+                     func=q, construct=f"{q}: result assigned conditionally")
+        elif late:
+            ctx.fail("effect.result-provenance", m, r, f"`{short(late[0])}` runs after the reported result was taken from the hall of fame",
+                     func=q, construct=f"{q}: result before update_hof")
         if norm(r.value) in ("(self.hof[0][0], self.hof[0][1])", "self.hof[0]"):
             ctx.ok("effect.result-provenance", m, r, what="result = best hall-of-fame entry")
         else:
